@@ -208,12 +208,15 @@ CHECKS["C09"] = dict(
 CHECKS["C16"] = dict(
     text="Proved for EVERY token stream and EVERY matcher (spans as finditer yields them): the count is the number of matches in document order; a replacement "
     "keeps every token in place and changes only characters of text nodes (replace_keeps_markup); a text node is the weave of its gaps and matches and the "
-    "new node is the weave of the same gaps with the replacement (replace_changes_matches_only); no match, no change; text_at of a search span is the matched "
+    "new node is the weave of the same gaps with the replacement (replace_changes_matches_only), and with the expansion of the template AT EACH MATCH when the "
+    "replacement is a template of re.sub made of literal pieces and references to the whole match (replace_template_changes_matches_only, replace_template_keeps_markup, "
+    "replace_by_whole_match_is_identity, template_literal_is_literal); no match, no change; text_at of a search span is the matched "
     "text and clamps out-of-range arguments; formatted=True keeps the characters and yields the ODF normal form (instances of C05's theorems). "
     "Correspondence: count / replace / text_at on generated layouts x 26 patterns x targets {paragraph, inner span / link with a tail}; oracle: per-node re.sub "
     "over lxml, start tags before/after, own-text projection for search / search_first / search_all / match / text_at, characters and white-space encoding "
     "after formatted replace, text outside the target untouched.",
-    note="`re` is a parameter of the model (the harness supplies finditer spans per node); the replacement string is literal (no group references). The "
+    note="`re` is a parameter of the model (the harness supplies finditer spans per node); the replacement is a literal string or a template of literal pieces and references to the whole match, as "
+    "CPython's re._parser.parse_template cuts it (the harness hands the pieces to the model; references to inner groups stay with the oracle). The "
     "formatted=True path is modelled by C05's append_plain_text model per rebuilt container: every rebuilt container holding only text and white-space elements "
     "is driven through the model (`ws rebuild`: children after the substitution -> children after append_plain_text('')) and must come out as the implementation "
     "wrote it; the oracle adds characters, no raw blank runs / tabs / newlines, no raw blank at an edge, ODF normal form and equality with a fresh container; "
